@@ -2,3 +2,11 @@
 pub assume_specification<T> [ <[T]>::swap ] (s: &mut [T], a: usize, b: usize)
     requires a < old(s)@.len(), b < old(s)@.len(),
     ensures final(s)@ == old(s)@.update(a as int, old(s)@[b as int]).update(b as int, old(s)@[a as int]);
+
+pub assume_specification<T, F: FnOnce() -> Option<T>>[ Option::<T>::or_else ](o: Option<T>, f: F) -> (r: Option<T>)
+    requires o.is_none() ==> f.requires(()),
+    ensures o.is_some() ==> r == o, o.is_none() ==> f.ensures((), r);
+
+pub assume_specification<T, F: FnOnce(T) -> bool>[ Option::<T>::is_some_and ](opt: Option<T>, f: F) -> (r: bool)
+    requires opt.is_some() ==> f.requires((opt.unwrap(),)),
+    ensures opt.is_none() ==> !r, opt.is_some() ==> f.ensures((opt.unwrap(),), r);
